@@ -1,14 +1,14 @@
 """C01 wrapper driver (child process).  Executes resolved call scripts (vf/wraplib.py resolve) by
 calling the generated wrappers THROUGH THE DATABASE ONLY: every wrapper is found by the C++ name of
 its function in the database dump (vf/idbdump.py), chosen among the function's wrappers by the
-parameter / return types the database records, called by the wrapper name (or function-pointer
+parameter / return types and parameter names the database records, called by the wrapper name (or function-pointer
 index) the database records, with a ctypes prototype built from the database's atomic types
-(-c), or as a function of the imported extension module (-python).  Object state is read back
-through the published data members' getter wrappers, base-class views through the upcast wrappers.
+(-c), or as a function of the imported extension module (-python).  Object state (st, bst, payload)
+is read back through the published data members' getter wrappers and the accessor vf_tag(), base-class views through the upcast wrappers.
 
     python3 wrapc_drive.py <config.json>
 
-Writes one JSON line per step {"b","i","ret","post"} (or {"b","i","err"}) to config["out"],
+Writes one JSON line per step {"b","i","ret","post":[[st,bst,tg]|null...]} (or {"b","i","err"}) to config["out"],
 flushed after each step, plus {"dbcheck": ...} lines describing what the database says about the
 wrapper variants of each function it used."""
 import ctypes, json, os, sys, importlib.util
@@ -205,6 +205,12 @@ class Driver:
             out.append(exp_desc(kind, fam, self.string_opt))
         return out
 
+    def expected_names(self, fn, k):
+        """parameter names the database must record (the renderer names parameters after position and kind)"""
+        s = fn["sig"]
+        n = len(s["ps"]) - k
+        return (["this"] if has_this(s) else []) + ["a%d_%s" % (i + 1, s["ps"][i]) for i in range(n)]
+
     def expected_ret(self, fn):
         s = fn["sig"]
         if s["fk"] == "ctor" or s["fk"] == "opAsg":
@@ -221,6 +227,7 @@ class Driver:
         s = fn["sig"]
         want_p = self.expected_params(fn, k)
         want_r = self.expected_ret(fn)
+        want_n = self.expected_names(fn, k)
         cands = []
         for f in self.functions_named(fn):
             for wi, w in self.wrappers_of(f):
@@ -231,20 +238,23 @@ class Driver:
         for wi, w in cands:
             got_p = [self.db.desc(p["type"]) for p in w["parameters"]]
             got_r = self.db.desc(w["return_type"]) if w["has_return_value"] else ("void",)
-            if got_p == want_p and got_r == want_r:
+            got_n = [p["name"] for p in w["parameters"]]
+            # accessor wrappers of data members name their parameters themselves
+            if got_p == want_p and got_r == want_r and (got_n == want_n or s["fk"] in ("getter", "setter")):
                 hits.append((wi, w))
         if gid not in self.checked:
             self.checked.add(gid)
             self.emit(dict(dbcheck=dict(
                 gid=gid, scoped=(fn["cls"] + "::" if fn["cls"] else "") + fn["cname"], nd=s["nd"],
                 variants=[dict(name=w["name"], params=[self.db.desc(p["type"]) for p in w["parameters"]],
+                               names=[p["name"] for p in w["parameters"]],
                                this=[p["is_this"] for p in w["parameters"]],
                                optional=[p["is_optional"] for p in w["parameters"]],
                                ret=self.db.desc(w["return_type"]) if w["has_return_value"] else ("void",),
                                callable_by_name=w["is_callable_by_name"]) for wi, w in cands])))
         if len(hits) != 1:
-            r = ("nowrapper", "database lists %d wrapper(s) matching %s%s %r -> %r among %d of %s" % (
-                len(hits), (fn["cls"] + "::") if fn["cls"] else "", fn["cname"], want_p, want_r, len(cands), fn["cname"]))
+            r = ("nowrapper", "database lists %d wrapper(s) matching %s%s %r %r -> %r among %d of %s" % (
+                len(hits), (fn["cls"] + "::") if fn["cls"] else "", fn["cname"], want_p, want_n, want_r, len(cands), fn["cname"]))
         else:
             wi, w = hits[0]
             exp_this = [i == 0 and has_this(s) for i in range(len(w["parameters"]))]
@@ -298,7 +308,7 @@ class Driver:
         if k == "bool":
             return bool(a)
         if k == "string" or (k == "ptr" and (d[1][1] if d[1][0] == "const" else d[1])[0] == "char"):
-            return a.encode("latin-1") if isinstance(a, str) else a
+            return a.encode("utf-8") if isinstance(a, str) else a
         if k == "ptr":
             return a or None
         return a
@@ -325,7 +335,7 @@ class Driver:
             return int(bool(r)) if r is not None else None
         if k == "string" or (k == "ptr" and (rdesc[1][1] if rdesc[1][0] == "const" else rdesc[1])[0] == "char"):
             if isinstance(r, bytes):
-                return r.decode("latin-1")
+                return r.decode("utf-8", "replace")
             return r
         if k == "char":
             return r if isinstance(r, int) else (ord(r) if r else None)
@@ -375,6 +385,19 @@ class Driver:
                 return self.canon_ret(rdesc, call([handle])), rdesc
         raise DriveError("database has no element %s::%s" % (cxxcls, name))
 
+    def method_get(self, cxxcls, name, handle):
+        """call the published accessor method `name` (no parameters) of class cxxcls"""
+        key = ("method", cxxcls, name)
+        if key not in self.callcache:
+            ti, t = self.class_type(cxxcls)
+            fs = [x for x in t["methods"] if self.db.functions[str(x)]["name"] == name]
+            ws = [w for f in fs for w in self.wrappers_of(f)]
+            if len(ws) != 1:
+                raise DriveError("%s::%s has %d wrappers" % (cxxcls, name, len(ws)))
+            self.callcache[key] = self.bind(*ws[0])
+        call, rdesc = self.callcache[key]
+        return self.canon_ret(rdesc, call([handle]))
+
     def read_post(self):
         post = []
         for i in range(1, len(self.slots)):
@@ -382,12 +405,14 @@ class Driver:
             if not o["live"]:
                 post.append(None)
                 continue
-            st = bst = 0
+            st = bst = tg = 0
             if o["cls"] != "KB":
-                st, _ = self.element_get("K0_%d" % self.fam, "st", self.view(i, "K0"))
+                h = self.view(i, "K0")
+                st, _ = self.element_get("K0_%d" % self.fam, "st", h)
+                tg = self.method_get("K0_%d" % self.fam, "vf_tag", h)
             if o["cls"] in ("KB", "Mix"):
                 bst, _ = self.element_get("KB_%d" % self.fam, "bst", self.view(i, "KB"))
-            post.append([st, bst])
+            post.append([st, bst, tg])
         return post
 
     def find_slot(self, handle, cls):
